@@ -151,6 +151,17 @@ def run_binary(outcome, tier, seed):
             if tier == "quick" and len(data) > 50000 and argv[0] != p:
                 continue
             jobs.append((fmt, data, argv, stdin))
+        # declared lengths far beyond the data, through every target and both supply modes (a target that collects the
+        # document first must not trust the declared length)
+        if fmt == "msgpack" and len(data) < 64 and data[:1] in (b"\xdb", b"\xdd", b"\xdf", b"\xc6", b"\xc9", b"\xdc"):
+            for to in ("json", "yaml", "toml", "msgpack"):
+                jobs.append((fmt, data, ["-t", to, "-f", fmt], data))
+                jobs.append((fmt, data, ["-t", to, p], None))
+    # error paths with a standard error stream that cannot be written to: still exit status 1, never an abort
+    errjobs = []
+    for argv, stdin in ((["missing.json"], None), (["-f", "json"], b"{"), (["-t", "json", "-f", "yaml"], b"~: 1\n"), (["-", "-"], b"1"),
+                        (["-f", "toml", "-t", "json"], b"a = \n"), (["--bogus"], None), (["-t", "toml", "-f", "json"], b"[1]")):
+        errjobs.append(("stderr=/dev/full", b"", argv, stdin))
     bad = []
 
     def one(job):
@@ -158,8 +169,13 @@ def run_binary(outcome, tier, seed):
         if len(bad) >= 3:
             return None      # enough failing runs to report; do not wait for more timeouts
         try:
-            r = subprocess.run([common.XT_DEBUG] + argv, input=stdin, stdout=subprocess.DEVNULL, stderr=subprocess.PIPE, timeout=300)
-            rc = r.returncode
+            if fmt == "stderr=/dev/full":
+                with open("/dev/full", "wb") as full:
+                    r = subprocess.run([common.XT_DEBUG] + argv, input=stdin, stdout=subprocess.DEVNULL, stderr=full, timeout=60, cwd=d)
+                rc = r.returncode if r.returncode != 2 else 1      # a usage error is status 2: fine, it is an exit
+            else:
+                r = subprocess.run([common.XT_DEBUG] + argv, input=stdin, stdout=subprocess.DEVNULL, stderr=subprocess.PIPE, timeout=300)
+                rc = r.returncode
         except subprocess.TimeoutExpired:
             rc = "timeout"
         if rc not in (0, 1) and fmt == "toml" and corpus.is_toml_dotted_nest(data) and rc == -6 \
@@ -175,7 +191,7 @@ def run_binary(outcome, tier, seed):
 
     import concurrent.futures
     with concurrent.futures.ThreadPoolExecutor(8) as ex:
-        n = sum(1 for rc in ex.map(one, jobs) if rc is not None)
+        n = sum(1 for rc in ex.map(one, jobs + errjobs) if rc is not None)
     outcome.oracle_failures.extend(bad)
     shutil.rmtree(d, ignore_errors=True)
     outcome.evaluations += n
